@@ -83,15 +83,21 @@ func streamC16(r *Rand, n int, o *Out) {
 	gopher := newCfg("specialSchemes+gopher", url.NewParser(url.WithSpecialSchemes(gopherSchemes)), 0, 0)
 	neutral := []neutralOpt{
 		{"accept-invalid-code-points", newCfg("acceptInvalid", url.NewParser(url.WithAcceptInvalidCodepoints()), 0, 0),
-			func(in, base string, du *url.Url, derr error) bool { return !utf8.ValidString(in) || !utf8.ValidString(base) }},
+			func(in, base string, du *url.Url, derr error) bool {
+				return !utf8.ValidString(in) || !utf8.ValidString(base)
+			}},
 		{"percent-encode-single-percent-sign", newCfg("pctSingle", url.NewParser(url.WithPercentEncodeSinglePercentSign()), 0, 0),
-			func(in, base string, du *url.Url, derr error) bool { return hasSinglePercent(in) || hasSinglePercent(base) }},
+			func(in, base string, du *url.Url, derr error) bool {
+				return hasSinglePercent(in) || hasSinglePercent(base)
+			}},
 		{"collapse-consecutive-slashes", newCfg("collapse", url.NewParser(url.WithCollapseConsecutiveSlashes()), 0, 0),
 			func(in, base string, du *url.Url, derr error) bool {
 				return hasConsecutiveSlashes(in) || hasConsecutiveSlashes(base) || (derr == nil && strings.Contains(du.Pathname(), "//"))
 			}},
 		{"skip-drive-letter-normalization", newCfg("skipDrive", url.NewParser(url.WithSkipWindowsDriveLetterNormalization()), 0, 0),
-			func(in, base string, du *url.Url, derr error) bool { return strings.Contains(in, "|") || strings.Contains(base, "|") }},
+			func(in, base string, du *url.Url, derr error) bool {
+				return strings.Contains(in, "|") || strings.Contains(base, "|")
+			}},
 		{"special-schemes", gopher,
 			func(in, base string, du *url.Url, derr error) bool {
 				return strings.Contains(strings.ToLower(stripForScheme(in)), "gopher") || strings.Contains(strings.ToLower(stripForScheme(base)), "gopher")
